@@ -1009,9 +1009,9 @@ def run(ctx):
     # the same reader / connection in a process with HISTORY (calls abandoned at every suspension point of read(), the
     # Frame.create executor hop with its job pending included; each history in a fresh python process): harness/history.py
     import history
-    history.evaluate(res, random.Random(ctx["seed"] * 7919 + 909), ctx["tier"], "C09", 6 if ctx["tier"] == "quick" else None)
+    history.evaluate(res, random.Random(ctx["seed"] * 7919 + 909), ctx["tier"], "C09", 12 if ctx["tier"] == "quick" else None)
     res.rule += ("; connections opened after an earlier one was ended (reader time-out / tasks cancelled / shutdown) while its producer "
-                 "sat in Frame.create with the executor job pending, each history in a fresh process")
+                 "sat in Frame.create with the executor job pending, or whose tasks were cancelled while a consumer sat in PhysicalDevice.create with the device-class import pending, each history in a fresh process")
     return res
 
 
